@@ -796,6 +796,25 @@ def run(ctx):
             f"let p := mkAcl {h} {pb} {bc} {len(data)} {coq_bytes(data)} in "
             "(acl_to_bytes p, match acl_to_bytes p with Some b => option_map acl_obs (acl_from_bytes b) | None => None end)"))
 
+    # ISO data packet codec with every optional part (time stamp, SDU info, status flag)
+    isoc = []
+    for _ in range(ctx.n(40, 400)):
+        pb = rng.below(4)
+        info = pb % 2 == 0
+        isoc.append({'h': rng.choice([0, 1, 0xEFF, 0xFFF, rng.range(0, 0xFFF)]), 'pb': pb,
+                     'ts': rng.choice([0, 1, 0xFFFFFFFF, rng.range(0, 0xFFFFFFFF)]) if rng.chance(1, 3) else None,
+                     'seq': rng.choice([0, 65535, rng.range(0, 65535)]) if info else None,
+                     'sl': rng.choice([0, 1, 4095, rng.range(0, 4095)]) if info else None,
+                     'psf': rng.below(4) if info else None,
+                     'frag': rng.bytes(rng.below(7))})
+    for c in isoc:
+        o = lambda v: 'None' if v is None else f'(Some {v})'
+        n = len(c['frag']) + (4 if c['ts'] is not None else 0) + (4 if c['seq'] is not None else 0)
+        c['len'] = n
+        c['idx'] = batch.add(
+            f"let p := mkIso {c['h']} {c['pb']} {n} {o(c['ts'])} {o(c['seq'])} {o(c['sl'])} {o(c['psf'])} {coq_bytes(c['frag'])} in "
+            "(iso_to_bytes p, match iso_to_bytes p with Some b => option_map iso_full (iso_from_bytes b) | None => None end)")
+
     # ---------------- A: fragmenter
     ctx.log('A: Host.send_l2cap_pdu')
     tx_cases = [
@@ -898,6 +917,27 @@ def run(ctx):
         if back != [h, pb, bc, len(data), data]:
             ctx.violation('codec:acl', f'ACL header handle={h} pb={pb} bc={bc} does not survive the wire',
                           {'kind': 'acl_header', 'h': h, 'pb': pb, 'bc': bc, 'data': data.hex()})
+
+    for c in isoc:
+        m_b, m_back = model[c['idx']]
+        pk = hci.HCI_IsoDataPacket(connection_handle=c['h'], data_total_length=c['len'], iso_sdu_fragment=c['frag'],
+                                   pb_flag=c['pb'], time_stamp=c['ts'], packet_sequence_number=c['seq'],
+                                   iso_sdu_length=c['sl'], packet_status_flag=c['psf'])
+        raw = bytes(pk)
+        q = hci.HCI_Packet.from_bytes(raw)
+        back = [q.connection_handle, q.pb_flag, q.data_total_length, q.time_stamp,
+                [q.packet_sequence_number, q.iso_sdu_length, q.packet_status_flag], bytes(q.iso_sdu_fragment)]
+        mb = opt(m_back)
+        mm = [bytes(opt(m_b)), [mb[0], mb[1], mb[2], opt(mb[3]), [opt(x) for x in mb[4]], bytes(mb[5])]]
+        ctx.case(('isoc', c['h'], c['pb'], c['ts'], c['seq'], c['sl'], c['psf'], c['frag']), True, None)
+        ctx.count('E.iso_codec')
+        if mm != [raw, back]:
+            ctx.disagree('HCI_IsoDataPacket codec', {k: (v.hex() if isinstance(v, bytes) else v) for k, v in c.items()},
+                         repr(mm), repr([raw, back]))
+        want = [c['h'], c['pb'], c['len'], c['ts'], [c['seq'], c['sl'], c['psf']], c['frag']]
+        if back != want:
+            ctx.violation('codec:iso', f'ISO data packet {want[:5]} does not survive the wire format: {back[:5]}',
+                          {'kind': 'iso_codec', **{k: (v.hex() if isinstance(v, bytes) else v) for k, v in c.items()}})
 
     for k, (c, (status, pk)) in enumerate(zip(tx_cases, tx_runs)):
         mres = model[c['idx']]
